@@ -331,7 +331,7 @@ func c20Generated(c *Ctx) {
 				cfgName += "+fixWhitespace"
 			}
 			if gp.Opts.FixWhitespace && !gp.G.Parser.HasActions() {
-				c.Count("generated: runs with fixWhitespace but no actions (template emits no fixTrailingWS call)")
+				c.Count("generated: runs with fixWhitespace and whole-rule arrows only")
 			}
 			switch {
 			case out == "crash" || strings.HasSuffix(out, "panic"):
